@@ -1159,6 +1159,8 @@ def queue_call(it, obj, meth, args, kwargs):
         return SBool(z3.And(ms > 0, qs >= ms))
     if meth == 'qsize':
         return SInt(qs)
+    if meth == 'empty':
+        return SBool(qs <= 0)
     if meth == 'get':
         c.assume(qs > 0)            # blocking get: returns once an item is available
         c.hset(obj, 'qsize', qs - 1)
